@@ -915,4 +915,41 @@ theorem trun_anergic (ops : List TOp) : ∀ t : TCell, t.isAnergic = true → (t
   | cons op rest ih => intro t h; exact ih _ (tstep_anergic t op h)
 
 
+
+/-! ### MHC display -/
+
+theorem ratio_range (k n : Nat) (h : k ≤ n) : 0 ≤ ratio k n ∧ ratio k n ≤ 1 := by
+  unfold ratio
+  rw [Rat.div_def]
+  by_cases hn : n = 0
+  · subst hn
+    have : k = 0 := by omega
+    subst this
+    simp; decide
+  · have hpos : (0 : Rat) < (n : Rat) := by exact_mod_cast Nat.pos_of_ne_zero hn
+    have hk : (0 : Rat) ≤ (k : Rat) := by exact_mod_cast Nat.zero_le k
+    have hkn : (k : Rat) ≤ (n : Rat) := by exact_mod_cast h
+    have hinv : (0 : Rat) ≤ (n : Rat)⁻¹ := Rat.le_of_lt (Rat.inv_pos.mpr hpos)
+    constructor
+    · exact Rat.mul_nonneg hk hinv
+    · have := Rat.mul_le_mul_of_nonneg_right hkn hinv
+      rwa [Rat.mul_inv_cancel _ (by grind)] at this
+
+theorem generate_ranges (d : Display) (sd : Sds) (p : Peptide) (h : d.generate sd = some p) :
+    0 ≤ p.errRate ∧ p.errRate ≤ 1 ∧ ∀ c, p.canary = some c → 0 ≤ c ∧ c ≤ 1 := by
+  unfold Display.generate at h
+  split at h
+  · cases h
+  · injection h with h
+    subst h
+    refine ⟨(ratio_range _ _ (List.length_filter_le _ _)).1, (ratio_range _ _ (List.length_filter_le _ _)).2, ?_⟩
+    intro c hc
+    simp only at hc
+    split at hc
+    · cases hc
+    · injection hc with hc
+      subst hc
+      exact ratio_range _ _ (List.length_filter_le _ _)
+
+
 end Operon.Immune
